@@ -27,6 +27,7 @@ LIBRARY_OWNERS = {"self.newlibrary", "newlibrary", "_newlibrary", "library", "se
 CLASS_OF_SELF = {"LibraryNode": "library", "ClassNode": "cls", "NamespaceNode": "ns", "FunctionNode": "node",
                  "BlockNode": "block", "EnumNode": "node", "VariableNode": "node", "TypedefNode": "node"}
 CACHED = []
+LOOPS = []
 OWNERS = ["library", "cls", "ns", "node", "block", "other"]
 
 
@@ -151,6 +152,24 @@ def scan_file(path, rel, ptable=None):
                         for k, nm in names_read_in(n.value):
                             cached.append((k, nm, site + ":self." + base.attr))
 
+        # reads inside `for X in <expr>.namespaces / .classes / .functions`: is the scope that of the member X
+        # (or of an alias of X.options) or of something else (the enclosing node)?
+        def loops(n, active):
+            for ch in ast.iter_child_nodes(n):
+                if isinstance(ch, (ast.FunctionDef, ast.ClassDef, ast.Lambda)):
+                    continue
+                act = active
+                if isinstance(ch, ast.For) and isinstance(ch.target, ast.Name) and isinstance(ch.iter, ast.Attribute) \
+                        and ch.iter.attr in ("namespaces", "classes", "functions"):
+                    act = active + [(ch.iter.attr, ch.target.id)]
+                if act and isinstance(ch, ast.Attribute) and isinstance(ch.ctx, ast.Load) and ch.attr not in SCOPE_METHODS \
+                        and not ch.attr.startswith("_"):
+                    for kind, osrc in owner_of(ch.value):
+                        for lk, var in act:
+                            LOOPS.append((kind, ch.attr, lk, osrc.split(".")[0] == var, site))
+                loops(ch, act)
+        loops(fn, [])
+
         for n in body_nodes:
             if isinstance(n, ast.Attribute) and isinstance(n.ctx, ast.Load) and n.attr not in SCOPE_METHODS \
                     and not n.attr.startswith("_"):
@@ -193,11 +212,25 @@ def scan(repo=None):
     repo = repo or common.REPO
     reads = []
     del CACHED[:]
+    del LOOPS[:]
     paths = sorted(glob.glob(os.path.join(repo, "shroud", "*.py")))
     ptable = param_reads([ast.parse(open(p).read()) for p in paths])
     for path in paths:
         reads += scan_file(path, os.path.basename(path), ptable)
     return reads
+
+
+def baseline_kind(field):
+    out = []
+    cpath = os.path.join(common.CORPUS, "c14.txt")
+    if os.path.exists(cpath):
+        for ln in open(cpath):
+            ln = ln.strip()
+            if ln.startswith("{"):
+                rec = json.loads(ln)
+                if rec.get("type") == "baseline":
+                    out += rec.get(field, [])
+    return sorted(set(out))
 
 
 def baseline():
@@ -221,6 +254,16 @@ def _nats(s):
 def render(reads, base_o, base_f):
     names, sites = [], []
     cached = sorted(set(CACHED))
+    loopreads = sorted(set(LOOPS))
+    ns_o, cls_o = baseline_kind("namespace_scoped_options"), baseline_kind("class_scoped_options")
+    for k, n, lk, onm, st in loopreads:
+        if n not in names:
+            names.append(n)
+        if st not in sites:
+            sites.append(st)
+    for n in ns_o + cls_o:
+        if n not in names:
+            names.append(n)
     for k, n, st in cached:
         if n not in names:
             names.append(n)
@@ -256,6 +299,17 @@ def render(reads, base_o, base_f):
     out.append("def cachedReads : List (Bool × Nat × Nat) := [")
     out.append(",\n".join("  (%s, %d, %d)" % ("true" if k == "options" else "false", ni[n], si[st]) for k, n, st in cached))
     out += ["]", ""]
+    out.append("/-- option reads inside a loop over `.namespaces` (0) / `.classes` (1) / `.functions` (2):")
+    out.append("    (name, loop kind, read on the loop variable's own scope?, site) -/")
+    out.append("def loopReads : List (Nat × Nat × Bool × Nat) := [")
+    lk_id = {"namespaces": 0, "classes": 1, "functions": 2}
+    out.append(",\n".join("  (%d, %d, %s, %d)" % (ni[n], lk_id[lk], "true" if onm else "false", si[st])
+                          for k, n, lk, onm, st in loopreads if k == "options"))
+    out += ["]", ""]
+    out.append("/-- options measured as read from namespace scopes only / class scopes only (corpus/c14.txt) -/")
+    out.append("def namespaceScopedOptions : List Nat := [" + ", ".join("/- %s -/ %d" % (n, ni[n]) for n in ns_o) + "]")
+    out.append("def classScopedOptions : List Nat := [" + ", ".join("/- %s -/ %d" % (n, ni[n]) for n in cls_o) + "]")
+    out.append("")
     out.append("/-- options measured (full trace, corpus/c14.txt) as read from function scopes only -/")
     out.append("def functionScopedOptions : List Nat := [" + ", ".join("/- %s -/ %d" % (n, ni[n]) for n in base_o) + "]")
     out.append("")
@@ -281,6 +335,10 @@ if __name__ == "__main__":
     reads, ch = regenerate()
     print("changed" if ch else "unchanged", len(reads), "reads")
     print("cached:", sorted(set(CACHED)))
+    ns_o, cls_o = baseline_kind("namespace_scoped_options"), baseline_kind("class_scoped_options")
+    for k, n, lk, onm, st in sorted(set(LOOPS)):
+        if k == "options" and ((lk == "namespaces" and n in ns_o) or (lk == "classes" and n in cls_o)):
+            print("LOOP", n, lk, "member" if onm else "ENCLOSING", st)
     base_o, base_f = baseline()
     c = collections.Counter((k, cls) for k, n, cls, o, s in reads)
     print(dict(c))
